@@ -267,7 +267,22 @@ def rule_S9(F, R):
             muts.add(d[1])
     muts -= {i for i, _t in x.rebase}
     targets = {i for i, _t in x.rebase} | {s for (s, _e) in x.emptiness_tests()} | {i for i, _t in x.make_snapshot} | {i for i, _t in x.sync_complete}
+    # P: where the sent segment is read out of the container
+    P = set()
+    for (i, t) in x.add_version:
+        sl = fl.slice_operand(t["args"][2], stop_locals={x.X})
+        for bb_, ct in sl.calls.items():
+            if any(ref_base(fl, a) == x.X for a in ct["args"] if op_place(a) is not None):
+                P.add(bb_)
+    if not P:
+        R.missing("S9", "the point where the history segment is taken from the pending container")
+        return
     for (sw, j, lab) in arms["Ok"]:
+        # was the batch already removed between the cut and this arm?
+        removed_before = all(j not in c.reachable_after(p, removed=muts) or p in muts for p in P)
+        if removed_before:
+            R.ok("S9", "batch moved out of the container when it was cut", where(x.b, j))
+            continue
         r = c.reachable(j, removed=muts)
         hit = sorted(targets & r)
         if hit:
@@ -276,6 +291,32 @@ def rule_S9(F, R):
                         % loc(c.term(hit[0])["sp"]), where(x.b, j))
         else:
             R.ok("S9", "accepted operations removed before next use of the container", where(x.b, j))
+
+
+AT_END = re.compile(r"^std::vec::Vec::<T, A>::(push|append|extend_from_slice|extend_from_within)$|^std::iter::Extend::extend$|^std::collections::VecDeque.*::(push_back|append)$")
+
+
+def rule_S10(F, R):
+    R.begin("S10", "operations taken from the pending container are never re-inserted at its end (that would change the order in which operations are sent)")
+    x = _ctx(F, R)
+    if not x.ok:
+        return
+    c, fl = x.c, x.fl
+    n = 0
+    for d in fl.defs.get(x.X, ()):
+        if d[0] != "mutcall":
+            continue
+        n += 1
+        t = d[4]
+        if not any(AT_END.search(nm) for nm in call_names(t)):
+            continue
+        for ai, a in enumerate(t["args"]):
+            if ai == d[2]:
+                continue
+            sl = fl.slice_operand(a, stop_locals={x.X})
+            if any(r[0] == "local" and r[1] == x.X for r in sl.roots):
+                R.violation("S10", x.subj, "pending-ops-reappended", "%s at %s appends operations that were taken out of the pending container back at its end: with more operations pending behind them the order of operations changes" % (call_names(t)[0], loc(t["sp"])), where(x.b, d[1]))
+    R.ok("S10", "no re-append of pending operations (%d mutation sites examined)" % n, where(x.b))
 
 
 def _result_arms(x):
